@@ -116,16 +116,11 @@ def readSome (n : Nat) : M (List Nat) := fun s =>
     let hitEnd := s.rest.isEmpty || got.length < n
     .ok (got, { s with pos := s.pos + got.length, rest := s.rest.drop n, failed := s.dev == .stream && hitEnd })
 
-/-- fixed-size array read `read(T(&)[N])`: the file device checks the count, the istream device does not
-    (its caller then consumes the uninitialised stack array) -/
+/-- fixed-size array read `read(T(&)[N])`: both devices check the count and throw on a short read
+    (istream_device since /repo cdb7c21; before that it returned the uninitialised array) -/
 def readFixed (n : Nat) : M (List Nat) := do
   let got ← readSome n
-  if got.length < n then
-    match (← getSt).dev with
-    | .file => ioErr
-    | .stream => ubAt "uninit@io/device.hpp:istream_device::read"
-                   "istream_device::read(T(&)[N]) ignores a short read: the uninitialised array is used as data"
-  else pure got
+  if got.length < n then ioErr else pure got
 
 def readU8 : M Int := do
   let b ← readFixed 1
@@ -222,6 +217,10 @@ def checkImageSize (st : Settings) (dimx dimy w h : Int) : M Unit := do
   if dimy > 0 then (if st.vh < dimy then ioErr else pure ())
   else (if st.vh < h then ioErr else pure ())
 
+/-- the region check at the end of the three reader_backend constructors (/repo c6180a1) -/
+def checkSettings (st : Settings) (dimx dimy w h : Int) : M Unit :=
+  if st.x0 < 0 ∨ st.y0 < 0 ∨ dimx < 0 ∨ dimy < 0 ∨ st.x0 + dimx > w ∨ st.y0 + dimy > h then ioErr else pure ()
+
 /-- pixels `[x0, x0+dw)` of a row buffer of `row.length` bytes, `bpp` bytes each, as `cc_policy.read` reads them;
     `used` = number of leading bytes of the buffer that the last read delivered (the rest is stale) -/
 def sliceRow (site : String) (row : List Nat) (bpp : Nat) (x0 dw : Int) (got : Nat) : M (List Nat) := do
@@ -254,8 +253,8 @@ def fReaderBackend := "extension/io/bmp/detail/reader_backend.hpp"
 def fRead := "extension/io/bmp/detail/read.hpp"
 def fScan := "extension/io/bmp/detail/scanline_read.hpp"
 
-/-- reader_backend::read_header -/
-def readHeader : M Info := do
+/-- reader_backend::read_header, up to the dimension check -/
+def readHeader0 : M Info := do
   let magic ← readU16
   if magic == 0x424D then ioErr      -- sic: little-endian "BM" is 0x4D42, so this rejects only "MB"
   else
@@ -267,8 +266,7 @@ def readHeader : M Info := do
     if hs == 40 then
       let w := wrapS 32 (← readU32)
       let h := wrapS 32 (← readU32)
-      if h == -2147483648 then
-        ubAt ("negation-overflow@" ++ fReaderBackend ++ ":read_header") "_info._height = -_info._height with height == INT_MIN"
+      if h == -2147483648 then ioErr          -- "Invalid BMP height." (/repo ad1e4c7; before: -INT_MIN)
       else
         let (h, td) := if h < 0 then (-h, true) else (h, false)
         let _ ← readU16
@@ -300,6 +298,11 @@ def readHeader : M Info := do
       pure { offset := offset, hdrSize := hs, width := w, height := h, bpp := bpp, comp := comp, numColors := nc, topDown := false }
     else ioErr
 
+/-- reader_backend::read_header: a zero or negative width, or a zero / still negative height, is rejected (/repo ad1e4c7) -/
+def readHeader : M Info := do
+  let i ← readHeader0
+  if i.width < 1 ∨ i.height < 1 then ioErr else pure i
+
 /-- palette entries (r,g,b,a) -/
 abbrev Palette := List (Nat × Nat × Nat × Nat)
 
@@ -320,7 +323,14 @@ def readPalette (i : Info) : M Palette := do
   if entries < 0 then allocErr
   else
     alloc (entries * 4)
-    readPaletteLoop (i.hdrSize == 40) entries.toNat []
+    let pal ← readPaletteLoop (i.hdrSize == 40) entries.toNat []
+    -- indices beyond the declared entries read black, not out of bounds (/repo d528079): _palette.resize(256, 0)
+    pure (if pal.length < 256 then pal ++ List.replicate (256 - pal.length) (0, 0, 0, 0) else pal)
+
+/-- number of palette entries the header declares (for the "inconsistent palette accepted" taint) -/
+def declaredEntries (i : Info) : Int :=
+  let e0 := wrapS 32 i.numColors
+  if e0 == 0 then (2 : Int) ^ i.bpp.toNat else e0
 
 /-- is_allowed<View>(info, is_read_and_no_convert) -/
 def isAllowed (i : Info) (st : Settings) : M Bool :=
@@ -356,11 +366,13 @@ def rowIndices (bpp : Int) (row : List Nat) : List Nat :=
   else if bpp == 4 then row.flatMap (fun b => [b % 16, b / 16])
   else row.flatMap (fun b => [b % 2, b / 2 % 2, b / 4 % 2, b / 8 % 2, b / 16 % 2, b / 32 % 2, b / 64 % 2, b / 128 % 2])
 
-def lookupAll (site why : String) (pal : Palette) (dst : Dst) : List Nat → List Nat → M (List Nat)
+def lookupAll (site why : String) (pal : Palette) (dst : Dst) (declared : Int := 256) : List Nat → List Nat → M (List Nat)
   | [], acc => pure acc.reverse
   | c :: cs, acc =>
     match pal[c]? with
-    | some p => lookupAll site why pal dst cs ((palPixel dst p).reverse ++ acc)
+    | some p => do
+      if Int.ofNat c ≥ declared then setTaint "palette index beyond the entries the header declares is read from the zero padding instead of being reported" else pure ()
+      lookupAll site why pal dst declared cs ((palPixel dst p).reverse ++ acc)
     | none => ubAt site why
 
 /-- rows loop shared by read_palette_image / read_data_15 / read_data:
@@ -387,7 +399,7 @@ def paletteRowPixels (site : String) (i : Info) (st : Settings) (dimx : Int) (pa
   else
     let idx := ((rowIndices i.bpp row).drop st.x0.toNat).take dimx.toNat
     if Int.ofNat got * ppb < st.x0 + dimx then setTaint ("short row read used as pixel data in " ++ site) else pure ()
-    lookupAll ("vector-index@" ++ site) "palette index from the pixel data is >= the palette size declared by the header" pal st.dst idx []
+    lookupAll ("vector-index@" ++ site) "palette index from the pixel data is >= the palette size declared by the header" pal st.dst (declaredEntries i) idx []
 
 /-- read_palette_image -/
 def readPaletteImage (i : Info) (pitch : Int) (st : Settings) (dimx dimy : Int) (d : Dest) : M Dest := do
@@ -421,7 +433,9 @@ def readMasks (i : Info) : M (Mask × Mask × Mask) := do
     let g ← readU32
     let b ← readU32
     let m (x : Int) : Mask := { mask := x.toNat, width := countOnes x.toNat, shift := trailingZeros32 x.toNat }
-    pure (m r, m g, m b)
+    -- /repo 12811a4: an empty mask or one wider than 8 bits is rejected (before: undefined shifts in chan15)
+    if r == 0 ∨ g == 0 ∨ b == 0 ∨ (m r).width > 8 ∨ (m g).width > 8 ∨ (m b).width > 8 then ioErr
+    else pure (m r, m g, m b)
   else if i.comp == 0 then
     -- switch (bpp) { case 15: case 16: ...; case 24: case 32: ... }   (only 15/16 reach this function)
     pure ({ mask := 0x7C00, width := 5, shift := 10 }, { mask := 0x03E0, width := 5, shift := 5 }, { mask := 0x1F, width := 5, shift := 0 })
@@ -503,12 +517,14 @@ def fRle := fRead ++ ":read_palette_image_rle"
 
 /-- copy_row_if_needed -/
 def copyRowIfNeeded (st : Settings) (dimx dimy : Int) (r : Rle) (d : Dest) : M Dest :=
-  if r.y ≥ st.y0 ∧ r.y < dimy then
+  -- /repo 76f86d6: y is a row of the image, buf holds that whole row; row = y - top_left.y
+  let row := r.y - st.y0
+  if row ≥ 0 ∧ row < dimy then
     if dimx ≤ 0 then pure d
     else if st.x0 < 0 ∨ st.x0 + dimx > Int.ofNat r.buf.length then
       ubAt ("heap-buffer-overflow@" ++ fRead ++ ":copy_row_if_needed") "buf.begin() + top_left.x + dim.x beyond the dim.x-wide row buffer"
     else
-      d.setRow (fRead ++ ":copy_row_if_needed") r.y (((r.buf.drop st.x0.toNat).take dimx.toNat).flatMap (palPixel st.dst))
+      d.setRow (fRead ++ ":copy_row_if_needed") row (((r.buf.drop st.x0.toNat).take dimx.toNat).flatMap (palPixel st.dst))
   else pure d
 
 /-- `*dst_it++ = v` for each of `vals` -/
@@ -519,34 +535,37 @@ def putRun (r : Rle) (vals : List (Nat × Nat × Nat × Nat)) : M Rle :=
   else
     pure { r with buf := r.buf.take r.x.toNat ++ vals ++ r.buf.drop (r.x.toNat + vals.length), x := r.x + vals.length }
 
-def palAt (pal : Palette) (c : Int) : M (Nat × Nat × Nat × Nat) :=
+def palAt (pal : Palette) (declared : Int) (c : Int) : M (Nat × Nat × Nat × Nat) :=
   match pal[c.toNat]? with
-  | some p => pure p
+  | some p => do
+    if c ≥ declared then setTaint "palette index beyond the entries the header declares is read from the zero padding instead of being reported" else pure ()
+    pure p
   | none => ubAt ("vector-index@" ++ fRle) "palette index from the RLE data is >= the palette size declared by the header"
 
 /-- absolute-mode bytes (RLE8: one index per byte) -/
-def absRun8 (pal : Palette) : Nat → Rle → M Rle
+def absRun8 (pal : Palette) (declared : Int) : Nat → Rle → M Rle
   | 0, r => pure r
   | n + 1, r => do
     let c ← readU8
-    let p ← palAt pal c
+    let p ← palAt pal declared c
     let r ← putRun { r with streamPos := r.streamPos + 1 } [p]
-    absRun8 pal n r
+    absRun8 pal declared n r
 
 /-- absolute-mode bytes (RLE4): `for (i = 0; i < count; ++i) { read; put hi; if (++i == second) break; put lo; }` -/
-def absRun4 (pal : Palette) (count second : Int) : Nat → Int → Rle → M Rle
+def absRun4 (pal : Palette) (declared : Int) (count second : Int) : Nat → Int → Rle → M Rle
   | 0, _, r => pure r
   | fuel + 1, i, r =>
     if i < count then do
       let b ← readU8
       let r := { r with streamPos := r.streamPos + 1 }
-      let p ← palAt pal (b / 16)
+      let p ← palAt pal declared (b / 16)
       let r ← putRun r [p]
       if i + 1 == second then pure r
+      else if r.x == r.xend then pure r        -- /repo b2161e7: the run was clamped to the row, no room for the low nibble
       else
-        let p ← palAt pal (b % 16)
+        let p ← palAt pal declared (b % 16)
         let r ← putRun r [p]
-        absRun4 pal count second fuel (i + 2) r
+        absRun4 pal declared count second fuel (i + 2) r
     else pure r
 
 /-- read_palette_image_rle main loop; one unit of fuel per `while (!finished)` iteration -/
@@ -561,13 +580,13 @@ def rleLoop (i : Info) (pitch : Int) (st : Settings) (dimx dimy : Int) (pal : Pa
       let count := if count > r.xend - r.x then r.xend - r.x else count
       -- a negative count (dst_it beyond dst_end) runs no iteration
       if i.comp == 2 then
-        let p0 ← palAt' pal (second / 16) count
-        let p1 ← palAt' pal (second % 16) (count - 1)
+        let p0 ← palAt' pal (declaredEntries i) (second / 16) count
+        let p1 ← palAt' pal (declaredEntries i) (second % 16) (count - 1)
         let vals := (List.range count.toNat).map (fun k => if k % 2 == 0 then p0 else p1)
         let r ← putRun r vals
         rleLoop i pitch st dimx dimy pal yend yinc fuel r d
       else
-        let p ← palAt' pal second count
+        let p ← palAt' pal (declaredEntries i) second count
         let r ← putRun r (List.replicate count.toNat p)
         rleLoop i pitch st dimx dimy pal yend yinc fuel r d
     else if second == 0 then
@@ -594,7 +613,7 @@ def rleLoop (i : Info) (pitch : Int) (st : Settings) (dimx dimy : Int) (pal : Pa
           rleLoop i pitch st dimx dimy pal yend yinc fuel { r with x := x, y := y, xend := r.buf.length } d
     else
       let count := if second > r.xend - r.x then r.xend - r.x else second
-      let r ← if i.comp == 2 then absRun4 pal count second (count.toNat + 1) 0 r else absRun8 pal count.toNat r
+      let r ← if i.comp == 2 then absRun4 pal (declaredEntries i) count second (count.toNat + 1) 0 r else absRun8 pal (declaredEntries i) count.toNat r
       -- pad to word boundary: (stream_pos - get_offset(0)) & 1
       let r ← if (r.streamPos - getOffset i pitch 0) % 2 == 1 then do
                   seekCur 1
@@ -603,20 +622,21 @@ def rleLoop (i : Info) (pitch : Int) (st : Settings) (dimx dimy : Int) (pal : Pa
       rleLoop i pitch st dimx dimy pal yend yinc fuel r d
 where
   /-- `_palette[idx]` evaluated only when the run writes at least `need` > 0 pixels -/
-  palAt' (pal : Palette) (idx : Int) (need : Int) : M (Nat × Nat × Nat × Nat) :=
-    if need ≤ 0 then pure (0, 0, 0, 0) else palAt pal idx
+  palAt' (pal : Palette) (declared : Int) (idx : Int) (need : Int) : M (Nat × Nat × Nat × Nat) :=
+    if need ≤ 0 then pure (0, 0, 0, 0) else palAt pal declared idx
 
 /-- read_palette_image_rle -/
 def readPaletteImageRle (i : Info) (pitch : Int) (st : Settings) (dimx dimy : Int) (d : Dest) : M Dest := do
   let pal ← readPalette i
   seekSet (wrapS 64 i.offset)
-  if dimx < 0 then allocErr               -- Buf_type buf(dim.x): length_error
+  if i.width < 0 then allocErr            -- Buf_type buf(_info._width): length_error
   else
-    alloc (dimx * 4)
-    let (ybeg, yend, yinc) : Int × Int × Int := if i.height > 0 then (dimy - 1, -1, -1) else (0, dimy, 1)
+    alloc (i.width * 4)
+    -- /repo 76f86d6: every row is decoded at the full image width, rows run over the image height
+    let (ybeg, yend, yinc) : Int × Int × Int := if i.height > 0 then (i.height - 1, -1, -1) else (0, i.height, 1)
     let fuel ← fuelHere
     rleLoop i pitch st dimx dimy pal yend yinc fuel
-      { buf := List.replicate dimx.toNat (0, 0, 0, 0), x := 0, xend := dimx, y := ybeg, streamPos := i.offset } d
+      { buf := List.replicate i.width.toNat (0, 0, 0, 0), x := 0, xend := i.width, y := ybeg, streamPos := i.offset } d
 
 /-- reader::apply -/
 def apply (i : Info) (st : Settings) (dimx dimy : Int) (d : Dest) : M Dest := do
@@ -700,7 +720,7 @@ def scan (i : Info) : M Img := do
         let idx := (rowIndices i.bpp row).take i.width.toNat
         let ppb : Int := if i.bpp == 8 then 1 else if i.bpp == 4 then 2 else 8
         if Int.ofNat got * ppb < i.width then setTaint ("short row read used as pixel data in " ++ site) else pure ()
-        let px ← lookupAll ("vector-index@" ++ site) "palette index from the pixel data is >= the palette size declared by the header" pal .rgba8 idx []
+        let px ← lookupAll ("vector-index@" ++ site) "palette index from the pixel data is >= the palette size declared by the header" pal .rgba8 (declaredEntries i) idx []
         pure { dst := px ++ b.dst.drop px.length, buf := row })
     else if i.bpp == 4 then (if i.comp == 2 then ioErr else ioErr)
     else if i.bpp == 8 then (if i.comp == 1 then ioErr else ioErr)
@@ -731,6 +751,7 @@ def run (st : Settings) : M Img := do
   let i ← readHeader
   let dimx := if st.dw == 0 then i.width else st.dw
   let dimy := if st.dh == 0 then i.height else st.dh
+  checkSettings st dimx dimy i.width i.height
   match st.entry with
   | .info => pure { hdr := [i.width, i.height, i.bpp, i.comp, i.offset, i.hdrSize, i.numColors, if i.topDown then 1 else 0], pix := [] }
   | .scan => scan i
@@ -811,6 +832,8 @@ def readHeader : M Info := do
       let ty : Int := Int.ofNat (t - 48)
       let w ← readInt
       let h ← readInt
+      if w < 1 ∨ h < 1 then ioErr            -- /repo 8a05590
+      else
       if ty == 1 ∨ ty == 4 then pure { type := ty, width := w, height := h, maxValue := 1 }
       else
         let m ← readInt
@@ -848,7 +871,7 @@ def textSamples (site : String) (maxValue : Int) (process : Bool) : Nat → Nat 
   | 0, _, row => pure (row, true)
   | n + 1, x, row => do
     match ← token site (← fuelHere) [] with
-    | none => pure (row, false)
+    | none => ioErr            -- /repo 8a05590: "Unexpected end of data or character in pnm file." (before: silent return)
     | some ds =>
       if process then
         let v := atoiByte ds
@@ -1001,6 +1024,7 @@ def run (st : Settings) : M Img := do
   let i ← readHeader
   let dimx := if st.dw == 0 then i.width else st.dw
   let dimy := if st.dh == 0 then i.height else st.dh
+  checkSettings st dimx dimy i.width i.height
   match st.entry with
   | .info => pure { hdr := [i.width, i.height, i.type, i.maxValue], pix := [] }
   | .scan => scan i
@@ -1177,6 +1201,7 @@ def run (st : Settings) : M Img := do
   let i ← readHeader
   let dimx := if st.dw == 0 then i.width else st.dw
   let dimy := if st.dh == 0 then i.height else st.dh
+  checkSettings st dimx dimy i.width i.height
   match st.entry with
   | .info => pure { hdr := [i.width, i.height, i.bpp, i.imageType, i.offset, i.descriptor, i.cmType, i.cmLength], pix := [] }
   | .scan => scan i
